@@ -60,6 +60,10 @@ CHECKS["C15"] = dict(engine="X", technique=X, design="§4 C15",
                      text="Bounded symbolic model checking of the gates through which analysed code could run: _load_module_path with a symbolic file suffix and symbolic allow/force flags (inspection only if forced, or allowed for a non-.py/.pyi file, else LoadingError); GriffeLoader.load / resolve_aliases(external) / expand_wildcards(external) when the package is not on disk (a dynamic import is attempted iff inspection is allowed or forced, and for external packages only on request); dynamic_import/sys_path under every fault schedule of importlib.import_module and getattr (return, Exception, ImportError, SystemExit, KeyboardInterrupt at each attempt): sys.path restored to the identical list, failures surface as ImportError. The list of callers of dynamic_import / inspect / import_module is re-derived from the source at every run and the check fails closed (exit 3) if a new caller appears.",
                      note="Gate property, not a whole-program proof: it shows code can only be executed through the listed gates under the stated flag conditions; the environment (finder, importlib) is stubbed. No real package is imported.")
 
+CHECKS["C19"] = dict(engine="X", technique=X, design="§4 C19",
+                     text="Bounded exhaustive case analysis driven by the solver: a runtime module and a stubs module with one member slot of every kind pair (function/attribute/class/alias/absent on each side: 25 pairs, mismatches included), a class with a method on both sides, and an 8-bit solver-chosen vector deciding which docstrings, annotations, extra members and overload lists exist on which side; merged through merge_stubs in both argument orders and through set_member's implicit merge in both insertion orders. Every clause of the statement is asserted, including equality of the result across the four routes.",
+                     note="Trusted: CrossHair/z3 as case splitter (the inputs are finite-domain); on-disk discovery of the three stub placements is not covered here (C14).")
+
 NOT_APPLICABLE = [
     {"property_id": "C17", "reason": "static-vs-dynamic agreement needs importlib/inspect on live objects of concrete executable modules: nothing symbolic survives the import boundary, so a solver could only enumerate program texts (enumeration, not solving). See DESIGN.md §5."},
 ]
